@@ -103,6 +103,9 @@ def monitored(net, fn, res, case, config=None):
         res["counters"]["max_general_permille_of_budget"] = max(res["counters"].get("max_general_permille_of_budget", 0), int(1000 * mg / g))
         res["counters"]["max_backedges_one_site_one_call"] = max(res["counters"].get("max_backedges_one_site_one_call", 0), mg, ms)
         res["counters"]["max_simulation_permille_of_budget"] = max(res["counters"].get("max_simulation_permille_of_budget", 0), int(1000 * ms / s))
+        # disarm: whatever the harness itself runs next (history replays of the explorer) is not a monitored call and must not
+        # be charged against the last call's budget
+        MON.reset(10 ** 15, 10 ** 15)
     return []
 
 
